@@ -145,6 +145,7 @@ type emitRec struct {
 	ret     uint64
 	done    bool
 	deliver int // times seen on the wire
+	pad     int // payload padding (-1: the usual few octets)
 }
 
 type emitter struct {
@@ -166,6 +167,7 @@ type h1 struct {
 	recs        []*emitRec
 	returnedIDs []uint64 // every valid ID any emitter got back (parents are drawn from here)
 	nodeInfo    []byte
+	bigPayloads bool // this life of the client carries a few large events
 
 	writeFaultW []int
 	dialFaultW  []int
@@ -224,9 +226,14 @@ func (h *h1) dialer(ctx context.Context, addr string) (net.Conn, error) {
 	return mk()
 }
 
-func token(em, k, kind int) []byte {
+// token: five identifying octets followed by padding. pad < 0 means the usual few octets; otherwise the event is a
+// LARGE one (payloads around 64 KiB and 1 MiB: message-size limits, buffer growth, chunked writes).
+func token(em, k, kind, pad int) []byte {
 	b := []byte{'T', byte(em), byte(k), byte(k >> 8), byte(kind)}
-	return append(b, bytes.Repeat([]byte{0xAB}, k%5)...)
+	if pad < 0 {
+		pad = k % 5
+	}
+	return append(b, bytes.Repeat([]byte{0xAB}, pad)...)
 }
 
 func (h *h1) emitterBody(e *emitter) {
@@ -240,7 +247,11 @@ func (h *h1) emitterBody(e *emitter) {
 		simrt.Yield("emitter.loop")
 		t := h.t
 		kind := t.Pick([]int{4, 2, 3, 2}, "emitkind")
-		rec := &emitRec{em: e.idx, k: e.opIdx, kind: kind}
+		rec := &emitRec{em: e.idx, k: e.opIdx, kind: kind, pad: -1}
+		if h.bigPayloads && t.Prob(1, 12, "big_payload") {
+			rec.pad = []int{65530, 65536, 1<<20 - 14, 1<<20 - 13, 1 << 20, 1<<20 + 4096}[t.Choose(6, "big_payload_size")]
+			h.r.Count("probe:event_with_large_payload", 1)
+		}
 		if kind >= 2 {
 			switch pk := t.Pick([]int{6, 3, 1, 1}, "parentkind"); {
 			case pk == 0 && len(h.returnedIDs) > 0: // most recent valid id
@@ -254,7 +265,7 @@ func (h *h1) emitterBody(e *emitter) {
 			}
 		}
 		h.recs = append(h.recs, rec)
-		tok := token(e.idx, e.opIdx, kind)
+		tok := token(e.idx, e.opIdx, kind, rec.pad)
 		disc := uint8(1)
 		if kind >= 2 {
 			disc = 2
@@ -376,6 +387,7 @@ func h1Body(r *sim.Run) {
 	}
 	startEpoch := c.seq.currentEpoch
 
+	h.bigPayloads = t.Prob(1, 30, "life_with_big_payloads")
 	nEm := t.Range(1, 6, "emitters")
 	totalOps := 0
 	for i := 0; i < nEm; i++ {
@@ -607,7 +619,7 @@ func (h *h1) oracle() {
 	r := h.r
 	byTok := map[string]*emitRec{}
 	for _, rec := range h.recs {
-		byTok[string(token(rec.em, rec.k, rec.kind))] = rec
+		byTok[string(token(rec.em, rec.k, rec.kind, 0))] = rec // keyed by the five identifying octets
 	}
 	returned := map[uint64]bool{}
 	for _, rec := range h.recs {
@@ -689,7 +701,14 @@ func (h *h1) oracle() {
 				parentSeq = binary.LittleEndian.Uint64(body)
 				tok = body[8:]
 			}
-			rec := byTok[string(tok)]
+			var rec *emitRec
+			if len(tok) >= 5 {
+				rec = byTok[string(tok[:5])]
+			}
+			if rec != nil && !bytes.Equal(tok, token(rec.em, rec.k, rec.kind, rec.pad)) {
+				r.Violate(h1Prop, "malformed", "event-payload-altered", "conn%d frame %d (receiver id %d): the payload of emit em%d/op%d arrived with %d octets, %d were emitted (or its content changed)", cn.idx, fi+1, id, rec.em, rec.k, len(tok), len(token(rec.em, rec.k, rec.kind, rec.pad)))
+				return
+			}
 			if rec == nil {
 				r.Violate(h1Prop, "phantom", "unknown-event-on-wire", "conn%d frame %d (receiver id %d): payload %x matches no emit call", cn.idx, fi+1, id, tok)
 				return
